@@ -1820,3 +1820,49 @@ M("C15-class-guard-does-not-insert", "C15", F_ST,
 M("C15-benign-class-guard-comment-and-order", "C15", F_ST, _G_TRIVIAL,
   "is_trivial() const {\n  static ClassInProgress::Set judged;\n  ClassInProgress guard(judged, this);\n  if (guard.is_recursive()) {\n    // ill-formed\n    return false;\n  }\n",
   benign=True)
+
+# ---- R15.24 (F-C15u: a base clause leading back to the class being defined)
+F_Y = "src/cppparser/cppBison.yxx"
+_CYC1 = """  std::set<CPPType *> visited;
+  if (derives_from_current_struct(type, visited)) {
+    yyerror("base class " + $1->get_fully_scoped_name() + " is or derives from the class being defined", @1);
+    type = nullptr;
+  }
+  $$ = type;
+"""
+M("C15-base-cycle-test-reverted", "C15", F_Y, _CYC1, "  $$ = type;\n",
+  expect="R15.24|class_derivation_name:name|cycle-refused")
+M("C15-base-cycle-reported-but-kept", "C15", F_Y, _CYC1, _CYC1.replace("    type = nullptr;\n", ""),
+  expect="R15.24|class_derivation_name:name|cycle-refused")
+M("C15-base-cycle-typename-form-unchecked", "C15", F_Y,
+  """  CPPType *type = CPPType::new_type(new CPPTBDType($2));
+  std::set<CPPType *> visited;
+  if (derives_from_current_struct(type, visited)) {
+    yyerror("base class " + $2->get_fully_scoped_name() + " is or derives from the class being defined", @2);
+    type = nullptr;
+  }
+  $$ = type;
+""", "  $$ = CPPType::new_type(new CPPTBDType($2));\n",
+  expect="R15.24|class_derivation_name:\"typename\"_name|cycle-refused")
+M("C15-base-cycle-names-not-resolved", "C15", F_Y,
+  "    CPPType *resolved = type->resolve_type(current_scope, global_scope);\n    if (resolved != type) {\n      type = resolved;\n      continue;\n    }\n", "",
+  expect="R15.24|derives_from_current_struct|looks-names-up-again")
+M("C15-base-cycle-direct-bases-only", "C15", F_Y,
+  "        if (derives_from_current_struct(base._base, visited)) {\n          return true;\n        }\n",
+  "        if (base._base == current_struct) {\n          return true;\n        }\n",
+  expect="R15.24|derives_from_current_struct|recurses-over-bases")
+M("C15-base-cycle-no-visited-set", "C15", F_Y,
+  "  while (type != nullptr && visited.insert(type).second) {", "  while (type != nullptr) {",
+  expect="R15.24|derives_from_current_struct|visited-set")
+M("C15-base-cycle-typedef-not-peeled", "C15", F_Y,
+  "    CPPTypedefType *td = type->as_typedef_type();\n    if (td != nullptr) {\n      type = td->_type;\n      continue;\n    }\n    CPPType *resolved", "    CPPType *resolved",
+  expect="R15.24|derives_from_current_struct|peels-typedefs")
+M("C15-benign-base-cycle-message-and-names", "C15", F_Y, _CYC1,
+  """  std::set<CPPType *> seen;
+  bool cyclic = derives_from_current_struct(type, seen);
+  if (cyclic) {
+    type = nullptr;
+    yyerror("circular base class " + $1->get_fully_scoped_name(), @1);
+  }
+  $$ = type;
+""", benign=True)
